@@ -18,7 +18,11 @@ for pid in ALL:
     if not os.path.exists(path):
         na.append({"property_id": pid, "reason": "check not built yet in this round (planned in DESIGN.md section 4; the technique applies)"})
         continue
-    p = importlib.import_module(f"harness.props.{pid}").PROP
+    mod = importlib.import_module(f"harness.props.{pid}")
+    p = mod.PROP
+    if not getattr(mod, "READY", False):
+        na.append({"property_id": pid, "reason": "check under construction in this round, not yet claimed (the technique applies; see DESIGN.md section 4)"})
+        continue
     if getattr(p, "not_applicable_reason", None):
         na.append({"property_id": pid, "reason": p.not_applicable_reason})
         continue
